@@ -59,7 +59,7 @@ impl Property for C09 {
         dp.alphabet = vec!["a", "b", "c", "1", "あ", "ア", "京", "都", "𠮷", "é"];
         dp.max_key_chars = 2;
         let cp = CfgParams::full();
-        (world(dp, cp), vec(pieces(tier.pick(8, 24)), 1..=4)).prop_map(|((dic, cfg), texts)| Case { dic, cfg, texts }).boxed()
+        (world(dp, cp), vec(pieces_long(tier.pick(8, 24)), 1..=4)).prop_map(|((dic, cfg), texts)| Case { dic, cfg, texts }).boxed()
     }
     fn cases_per_shard(&self, tier: Tier) -> u32 {
         tier.pick(5000, 100000)
